@@ -44,7 +44,8 @@ std::string HEXExpression::hex(Integer val, Integer n)
     {
       buf[len++] = g[c];
     }
-    n += 1;
+    else
+      n += 1;
   }
   buf[len++] = g[(0xf & val)];
   return std::string(buf, len);
